@@ -144,6 +144,41 @@ def analyse(spec, mutant=None, timeout_ms=20000, diff_rules=True):
     return out
 
 
+def analyse_diff(seed, mutant=None, timeout_ms=20000):
+    """differentiation rules: D[[Dx(e,k)]] = d/dx_k D[[e]] (forward-mode oracle)"""
+    vf = vfmod(mutant)
+    out = {'spec': ['diff', seed], 'queries': {'unsat': 0, 'sat': 0, 'unknown': 0}, 'solver_s': 0.0}
+    try:
+        r = gen.make_diff_case(vf, seed)
+    except EXPLICIT + (AssertionError,) as e:
+        out['status'] = 'reject-build'; out['detail'] = type(e).__name__; return out
+    V = r['V']; out['desc'] = r['desc']
+    env = sem.Env(vf, V)
+    try:
+        de = vf.Dx(r['e'], r['k'], parametric=r['parametric'])
+    except EXPLICIT as e:
+        out['status'] = 'reject-build'; out['detail'] = type(e).__name__; return out
+    except AssertionError as e:
+        out['status'] = 'reject-build'; out['detail'] = 'AssertionError'; return out
+    try:
+        lhs = sem.ev(de, env)
+        _, rhs = sem.dual(r['e'], env, r['k'], r['parametric'])
+    except (sem.NotDifferentiable, NotImplementedError) as e:
+        out['status'] = 'sem-unsupported'; out['detail'] = str(e)[:80]; return out
+    pre = env.geometry_assumptions() + env.side + [dd != 0 for dd in env.denoms]
+    if z3.is_expr(lhs) and z3.is_expr(rhs) and lhs.eq(rhs):
+        out['queries']['unsat'] += 1; out['status'] = 'holds'; return out
+    res, m, dt = solve(pre, lhs != rhs, timeout_ms)
+    out['queries'][res] += 1; out['solver_s'] += dt
+    if res == 'sat':
+        out['status'] = 'violation'; out['which'] = 'differentiation rule'; out['model'] = model_atoms(m, env)
+    elif res == 'unknown':
+        out['status'] = 'undecided'
+    else:
+        out['status'] = 'holds'
+    return out
+
+
 def model_atoms(m, env):
     vals = {}
     for name, t in env.atoms.items():
@@ -161,6 +196,8 @@ def model_atoms(m, env):
 def _worker(args):
     spec, mutant, timeout_ms = args
     try:
+        if spec[0] == 'diff':
+            return analyse_diff(spec[1], mutant, timeout_ms)
         return analyse(spec, mutant, timeout_ms)
     except Exception as e:
         return {'spec': list(spec), 'status': 'harness-error', 'detail': traceback.format_exc()[-800:],
@@ -211,6 +248,22 @@ def run(perturb, rnd):
     if len(e1) != len(e2) or any(differ(a, b) for a, b in zip(e1, e2)): bad.append('finalize')
     if problems: bad.append('order')
     return bad, [e1[:4], e2[:4]]
+def run_diff(perturb, rnd):
+    from vfsem import gen
+    r = gen.make_diff_case(vf, spec[1])
+    V = r['V']
+    cache = {}
+    def atom(name):
+        if name not in cache:
+            cache[name] = atoms.get(name, 0.37) + (rnd.uniform(-0.3, 0.3) if perturb else 0.0)
+        return cache[name]
+    env = sem.NumEnv(vf, V, atom)
+    de = vf.Dx(r['e'], r['k'], parametric=r['parametric'])
+    lhs = sem.ev(de, env); _, rhs = sem.dual(r['e'], env, r['k'], r['parametric'])
+    bad = ['diffrule'] if abs(lhs - rhs) > 1e-7 * (1 + abs(lhs) + abs(rhs)) else []
+    return bad, [[lhs], [rhs]]
+if spec[0] == 'diff':
+    run = run_diff
 res = None
 rnd = random.Random(1)
 for k in range(6):
@@ -236,6 +289,8 @@ def program_specs(tier, seed, n_rand):
     base = rng.randrange(10 ** 6) if seed else 0
     for k in range(n_rand):
         specs.append(('rand', base + k, 2 if k % 4 else 1))
+    for k in range(n_rand // 2):
+        specs.append(('diff', base + k))
     return specs
 
 
@@ -281,8 +336,9 @@ def main():
     run.samples = [{'program': r['spec'], 'desc': r.get('desc', ''), 'status': r['status']} for r in results[:3] + results[70:76]]
     run.groups.append({'group': 'programs', 'tally': tally, 'n': len(results)})
     run.groups.append({'group': 'random-grammar', 'n': n_rand, 'depth': '1-2'})
+    run.groups.append({'group': 'differentiation-rules', 'n': n_rand // 2, 'oracle': 'forward-mode duals over the denotation'})
     run.bounds = {'programs': 'fixed corpus (%d forms) + %d seeded random forms of the bounded grammar (depth<=2, dims 1-3, arity 1-2, '
-                              'scalar/vector bases, volume/surface/boundary, space-time)' % (len(specs) - n_rand, n_rand),
+                              'scalar/vector bases, volume/surface/boundary, space-time)' % (len([s_ for s_ in specs if s_[0] == 'corpus']), n_rand),
                   'environments': 'all real atoms (no bound)'}
     run.assumptions += ['doubles as reals except constant-only subexpressions (evaluated in double arithmetic, as any implementation does)',
                         'det J != 0; denominators of the original form != 0; space-time forms: cylinder geometry (no space/time mixing)',
@@ -294,8 +350,8 @@ def main():
 
     # canaries
     if not run.args.no_canaries:
-        sub = [('corpus', n) for n in ('laplace(1)', 'laplace(2)', 'lap_hess(1)', 'lap_hess(2)', 'hess_field(2)', 'quotient(1)', 'quotient(2)',
-                                       'convdiff(2)', 'sincos(1)', 'sincos(2)', 'mixed_second(2)', 'gradf(2)')] + specs[len(specs) - n_rand:][:40]
+        sub = [('diff', k) for k in range(24)] + [('corpus', n) for n in ('laplace(1)', 'laplace(2)', 'lap_hess(1)', 'lap_hess(2)', 'hess_field(2)', 'quotient(1)', 'quotient(2)',
+                                       'convdiff(2)', 'sincos(1)', 'sincos(2)', 'mixed_second(2)', 'gradf(2)')] + [s_ for s_ in specs if s_[0] == 'rand'][:16]
         canaries = [
             ('JacInv transposed in physical gradient', 'return inner(self.JacInv[:, k], grad(e.without_derivs(), parametric=True))',
              'return inner(self.JacInv[k, :], grad(e.without_derivs(), parametric=True))'),
@@ -310,7 +366,7 @@ def main():
         for name, pat, rep in canaries:
             if pat not in src:
                 run.canary(name, False, skipped=True); continue
-            rs = run_programs(sub, mutant=(name, pat, rep), timeout_ms=30000, procs=8)
+            rs = run_programs(sub, mutant=(name, pat, rep), timeout_ms=15000, procs=8)
             run.canary(name, any(r['status'] == 'violation' for r in rs))
     run.finish()
 
